@@ -43,11 +43,28 @@ def same_state(interp, a, b, ignore=(), path="$"):
             seen[key] = True
             if x.cls is not y.cls:
                 return False
-            kx = {k for k in x.fields if k not in ign}
-            ky = {k for k in y.fields if k not in ign}
+            # observable state: public attributes and the values of public properties.  Private attributes are the class's own
+            # business (a memo filled on one side and empty on the other is not a difference a user can see); whatever they
+            # back is compared through the properties, and what they cache through the pack()/accessor clauses of the harnesses.
+            kx = {k for k in x.fields if k not in ign and not k.startswith("_")}
+            ky = {k for k in y.fields if k not in ign and not k.startswith("_")}
             if kx != ky:
                 return False
-            return ops.b_and(*[interp.symtruth(rec(x.fields[k], y.fields[k])) for k in sorted(kx)])
+            res = [interp.symtruth(rec(x.fields[k], y.fields[k])) for k in sorted(kx)]
+            if res and any(r is False for r in res):
+                return False
+            for name, prop in _public_properties(interp, x.cls):
+                if name in ign or name in kx:
+                    continue
+                ox, oy = _get_prop(interp, x, prop), _get_prop(interp, y, prop)
+                if ox[0] != oy[0]:
+                    return False
+                if ox[0] == "raised":
+                    if ox[1] is not oy[1]:
+                        return False
+                    continue
+                res.append(interp.symtruth(rec(ox[1], oy[1])))
+            return ops.b_and(*res)
         if isinstance(x, Instance) or isinstance(y, Instance):
             return False
         if isinstance(x, EnumV) or isinstance(y, EnumV):
@@ -92,6 +109,26 @@ def same_state(interp, a, b, ignore=(), path="$"):
         return interp.eq(x, y)
 
     return rec(a, b)
+
+
+def _public_properties(interp, cls):
+    out, seen = [], set()
+    for c in interp.mro(cls):
+        for k, v in c.ns.items():
+            if k in seen:
+                continue
+            seen.add(k)
+            if isinstance(v, PropertyV) and not k.startswith("_") and v.fget is not None and not v.abstract:
+                out.append((k, v))
+    return sorted(out, key=lambda kv: kv[0])
+
+
+def _get_prop(interp, obj, prop):
+    from .interp import PyRaise
+    try:
+        return ("ok", interp.call(BoundMethod(obj, prop.fget), [], {}))
+    except PyRaise as pr:
+        return ("raised", pr.exc.cls)
 
 
 def snapshot(interp, v):
